@@ -65,7 +65,11 @@ namespace detail
 	// mod
 	GLM_FUNC_QUALIFIER int mod(int x, int y)
 	{
-		return ((x % y) + y) % y;
+		// x - y * floor(x / y) without forming (x % y) + y, which overflows for |y| > 2^30; INT_MIN % -1 traps, every x mod -1 is 0
+		if(y == -1)
+			return 0;
+		int const Remainder = x % y;
+		return (Remainder != 0 && ((Remainder < 0) != (y < 0))) ? Remainder + y : Remainder;
 	}
 
 	// factorial (!12 max, integer only)
